@@ -55,6 +55,6 @@ META = dict(
     technique="Lean 4 proof (induction over the back-off walk; de-duplication lemmas; `decide` over the extracted split table) + model/implementation correspondence",
     text="Theorems for every repository state and every max >= 1: no hash appears twice in the chain locator or the verify-only locator; de-duplication loses nothing; "
          "the walk takes at most max hashes from the best chain; genesis alone at height 0; above that the first entry is the tip's parent; the verify-only locator "
-         "of the extracted main-net table is [BCH/BSV fork point, BTC fork point]; the wire parameters (5, 10, 3) are the extracted ones.",
-    note=COMMON_NOTE + "Membership ('every hash is a best-chain header, a split fork point or a branch base') is by construction of the model and checked on the implementation by the monitor.",
+         "of the extracted main-net table is [BCH/BSV fork point, BTC fork point]; the wire parameters (5, 10, 3) are the extracted ones. For every state: every hash of the locator is a header the best chain holds at some height (or the tip of a height-0 chain), a fork point of the configured split table, or the lowest held header of a tracked side branch (C19_membership, C19_branch_membership), and the best-chain hashes come in strictly descending height (C19_newest_first).",
+    note=COMMON_NOTE + "Membership and order are theorems about the model (C19_membership, C19_newest_first) and checked on the implementation by the monitor.",
 )
